@@ -22,6 +22,7 @@ except ImportError:
 
 import xonsh.lib.lazyjson as xlj
 import xonsh.tools as xt
+from xonsh.lib import verifhooks as _vh
 import xonsh.xoreutils.uptime as uptime
 from xonsh.history.base import History
 
@@ -354,6 +355,7 @@ class JsonHistoryFlusher(threading.Thread):
         self.at_exit = at_exit
         self.skip = skip
         if at_exit:
+            _vh.point("histq.before_acquire", ticket=self, kind="exit_flusher")
             with self.cond:
                 self.cond.wait_for(self.i_am_at_the_front)
                 self.dump()
@@ -363,11 +365,13 @@ class JsonHistoryFlusher(threading.Thread):
             self.start()
 
     def run(self):
+        _vh.point("histq.before_acquire", ticket=self, kind="flusher")
         with self.cond:
             self.cond.wait_for(self.i_am_at_the_front)
             self.dump()
             self.queue.popleft()
             self.cond.notify_all()
+        _vh.point("histq.done", ticket=self, kind="flusher")
 
     def i_am_at_the_front(self):
         """Tests if the flusher is at the front of the queue."""
@@ -469,6 +473,7 @@ class JsonCommandField(cabc.Sequence):
         # now we know we have to go into the file
         queue = self.hist._queue
         queue.append(self)
+        _vh.point("histq.before_acquire", ticket=self, kind="reader")
         with self.hist._cond:
             self.hist._cond.wait_for(self.i_am_at_the_front)
             with open(self.hist.filename, newline="\n", encoding="utf-8") as f:
